@@ -5,7 +5,7 @@ import re
 from . import common
 
 
-def analyze(dirpath, flags=None, seq=False, sanity=False, patterns=(), timeout=900, env=None):
+def analyze(dirpath, flags=None, seq=False, sanity=False, patterns=(), timeout=900, env=None, sites=False):
     args = ["analyze", "-dir", dirpath]
     for k, v in (flags or {}).items():
         args += ["-flag", "%s=%s" % (k, v)]
@@ -13,6 +13,8 @@ def analyze(dirpath, flags=None, seq=False, sanity=False, patterns=(), timeout=9
         args.append("-seq")
     if sanity:
         args.append("-sanity")
+    if sites:
+        args.append("-sites")
     args += list(patterns)
     rc, out, err = common.harness(args, timeout=timeout, env=env)
     if rc != 0:
